@@ -13,6 +13,25 @@ import ast
 from .core import AnalysisError, unparse
 
 
+class _Atom:
+    """an operand of a compound condition, presented like the cond node it belongs to"""
+    __slots__ = ('id', 'kind', 'ast', 'label', 'succ', 'pred', 'stmt', 'owner')
+
+    def __init__(self, owner, expr):
+        self.owner = owner
+        self.id = owner.id
+        self.kind = 'cond'
+        self.ast = expr
+        self.stmt = owner.stmt
+        self.label = owner.label
+        self.succ = owner.succ
+        self.pred = owner.pred
+
+    @property
+    def lineno(self):
+        return getattr(self.ast, 'lineno', None) or self.owner.lineno
+
+
 class Node:
     __slots__ = ('id', 'kind', 'ast', 'label', 'succ', 'pred', 'stmt')
 
@@ -269,7 +288,7 @@ class CFG:
     def reaches(self, a: Node, b: Node, avoid=(), labels_excluded=()):
         return b.id in self.reachable_from(a, avoid, labels_excluded)
 
-    def guard_branches(self, node: Node):
+    def guard_branches(self, node: Node, atoms=False):
         """[(cond node, True/False)] -- for every dominating condition, the branch through which `node` is
         reached when that is unambiguous (the other branch cannot reach node without re-passing the cond)"""
         out = []
@@ -291,8 +310,23 @@ class CFG:
                 if lab in ('T', 'F') and s is node:
                     via.add(lab)
             if len(via) == 1:
-                out.append((c, via.pop() == 'T'))
+                br = via.pop() == 'T'
+                out.append((c, br))
+                if atoms:
+                    # the operands of a conjunction that held / a disjunction that failed are facts of their own
+                    out.extend(self._atoms(c, c.ast, br))
         return out
+
+    def _atoms(self, c, e, br):
+        res = []
+        if isinstance(e, ast.BoolOp) and ((isinstance(e.op, ast.And) and br) or (isinstance(e.op, ast.Or) and not br)):
+            for v in e.values:
+                res.append((_Atom(c, v), br))
+                res.extend(self._atoms(c, v, br))
+        elif isinstance(e, ast.UnaryOp) and isinstance(e.op, ast.Not):
+            res.append((_Atom(c, e.operand), not br))
+            res.extend(self._atoms(c, e.operand, not br))
+        return res
 
 
 def forward_may(cfg: CFG, init, transfer, join=None, start=None, edge_filter=None):
